@@ -534,7 +534,7 @@ func (r *Raft) setCommitIndex(index uint64) (configCommitted bool) {
 
 func (l *leader) changeConfig(config Config) {
 	l.node = config.Nodes[l.nid]
-	l.numVoters = l.configs.Latest.numVoters()
+	l.numVoters = config.numVoters()
 	l.Raft.changeConfig(config)
 
 	// remove repls
